@@ -80,6 +80,8 @@ func WriteTable(dir string, t *Table) (string, error) {
 					b.WriteString(jsonQuote(v.S))
 				case KInt:
 					b.WriteString(strconv.FormatInt(v.I, 10))
+				case KFloat:
+					b.WriteString(strconv.FormatFloat(v.F, 'g', -1, 64))
 				}
 			}
 			b.WriteString("}\n")
@@ -284,7 +286,12 @@ func (p *jparser) value() (Val, error) {
 		}
 		n, err := strconv.ParseInt(string(p.s[p.i:j]), 10, 64)
 		if err != nil {
-			return Val{}, fmt.Errorf("not an integer: %q", p.s[p.i:j])
+			f, err2 := strconv.ParseFloat(string(p.s[p.i:j]), 64)
+			if err2 != nil {
+				return Val{}, fmt.Errorf("not a number: %q", p.s[p.i:j])
+			}
+			p.i = j
+			return Float(f), nil
 		}
 		p.i = j
 		return Int(n), nil
@@ -568,4 +575,47 @@ func (p *nparser) val() (Val, error) {
 		p.i += j
 		return Int(n), nil
 	}
+}
+
+// Coerce reads the numbers of Float columns (and of lists of Floats) as Floats: -o json prints 3.0 as 3.
+func Coerce(rows [][]Val, out []Field) {
+	toF := func(v Val) Val {
+		if v.K == KInt {
+			return Float(float64(v.I))
+		}
+		return v
+	}
+	for _, r := range rows {
+		for i := range r {
+			if i >= len(out) {
+				break
+			}
+			switch {
+			case out[i].T == KFloat:
+				r[i] = toF(r[i])
+			case out[i].T == KList && out[i].Elem == KFloat && r[i].K == KList:
+				for j := range r[i].List {
+					r[i].List[j] = toF(r[i].List[j])
+				}
+			}
+		}
+	}
+}
+
+func HasFloat(rows [][]Val) bool {
+	for _, r := range rows {
+		for _, v := range r {
+			if v.K == KFloat {
+				return true
+			}
+			if v.K == KList {
+				for _, e := range v.List {
+					if e.K == KFloat {
+						return true
+					}
+				}
+			}
+		}
+	}
+	return false
 }
